@@ -99,20 +99,30 @@ class P(core.Prop):
     rule = ('histories of stimuli for one launch(): stdout of a Tor start-up (head, the "Opening Control listener" '
             'line, tail) cut at 0..4 random places (mostly inside the line), stderr output, control connection '
             'succeeds/fails (with a second listener line and a second attempt in some), authentication ok/failed, '
-            'the three commands SETEVENTS/TAKEOWNERSHIP/RESETCONF acknowledged or rejected, progress 10/50/100 '
-            '(and repeated 100), other status events, the launch timeout, exit with code 0/1/255 or signal 15/9, '
+            'the three commands SETEVENTS/TAKEOWNERSHIP/RESETCONF acknowledged or rejected, then the attachment of '
+            'the TorConfig (config.protocol is None at launch; attach_protocol takes 0..3 scripted round trips, each '
+            'answered ok 85% / rejected, sometimes one answer too many), progress 10/50/100 (100% also between the '
+            'attach answers in half of them, and repeated 100), other status events, the launch timeout, exit with '
+            'code 0/1/255 or signal 15/9, '
             'extra when_connected() callers at any point, reactor shutdown; with/without timeout, caller data '
             'directory, kill_on_stderr. Orders: the causal order with some stimuli moved, or a full shuffle '
             '(kept physically possible: one exit, no process output after it). Every permutation of '
             '{stdout, connect, auth, ack, 100%, timeout, exit} is enumerated (quick: 5040 orders, the line cut in two adjacent '
             'pieces; thorough: 20160 orders with the two pieces apart, two more acks later, all dir/timeout settings, and every '
-            'cut of the line for the causal order). '
-            'non-trivial = the listener line is present and at least two of {exit, timeout, delivered 100%} occur; '
+            'cut of the line for the causal order); the attach round trips (0/1/2) are answered at later random points. '
+            'The attach stage is enumerated too: connection up to RESETCONF sent, then every order of {RESETCONF ack, '
+            'two attach answers each ok or rejected, 100%, exit | timeout (thorough: both)} for 1 and 2 round trips. '
+            'non-trivial = the listener line is present and at least two of {exit, timeout, delivered 100%, config '
+            'attach started and answered} occur; '
             'distinct = distinct case')
     trusted = ['a fake reactor (task.Clock + spawnProcess/addSystemEventTrigger recorders), a fake process transport '
                '(signalProcess raises ProcessExitedAlready once the harness has delivered the exit), a fake control '
                'connection = command channel answered by the OAck stimuli; real directories on disk',
-               'TorConfig.attach_protocol is stubbed (as the repo tests do); tempfile.tempdir points to a scratch dir']
+               'the TorConfig is real but its attach_protocol is replaced by a scripted one with the same contract '
+               '(raises if a protocol is already attached, sets config.protocol at once, returns a Deferred): the '
+               'Deferred fires after case["attach"] OAttach answers (0 = already fired), errbacks on a rejected one; '
+               'the round trips are separate stimuli, not commands in the connection FIFO',
+               'tempfile.tempdir points to a scratch dir']
     assumptions = ['waiter callbacks do not call back into the protocol', 'stdout is ASCII',
                    'processEnded is delivered once, after the last stdout/stderr data',
                    'Tor sends STATUS_CLIENT events on a connection only after it accepted SETEVENTS there']
@@ -233,7 +243,22 @@ class P(core.Prop):
         else:
             ddir = None
         config = TorConfig()
-        config.__dict__['attach_protocol'] = lambda proto: defer.succeed(None)
+        n_attach = int(case.get('attach', 0))
+        att = {'left': 0, 'd': None}
+
+        def attach_protocol(proto):
+            # same contract as TorConfig.attach_protocol: refuses a second protocol, `protocol` is set at
+            # once, the returned Deferred fires when the (scripted) round trips are over
+            if config.__dict__['_protocol'] is not None:
+                raise RuntimeError('Already have a protocol.')
+            config.__dict__['_protocol'] = proto
+            cur.append(['attach', proto.cid])
+            if n_attach == 0:
+                return defer.succeed(config)
+            att['left'] = n_attach
+            att['d'] = defer.Deferred()
+            return att['d']
+        config.__dict__['attach_protocol'] = attach_protocol
 
         def progress_cb(percent, tag, summary):
             cur.append(['progress', percent])
@@ -294,6 +319,17 @@ class P(core.Prop):
                                 d.callback('OK')
                             else:
                                 d.errback(Failure(RuntimeError('510 Unrecognized command')))
+                    elif k == 'attach':
+                        if att['left'] > 0:
+                            if op[1]:
+                                att['left'] -= 1
+                                if att['left'] == 0:
+                                    d, att['d'] = att['d'], None
+                                    d.callback(config)
+                            else:
+                                att['left'] = 0
+                                d, att['d'] = att['d'], None
+                                d.errback(Failure(RuntimeError('552 Unrecognized key "config/names"')))
                     elif k == 'progress':
                         if op[1] < len(conns) and conns[op[1]].events_on:
                             for cb in list(conns[op[1]].listeners):
@@ -350,6 +386,8 @@ class P(core.Prop):
             return C('OBoot', N(op[1]), Bool(op[2]))
         if k == 'ack':
             return C('OAck', N(op[1]), Bool(op[2]))
+        if k == 'attach':
+            return C('OAttach', Bool(op[1]))
         if k == 'progress':
             return C('OProgress', N(op[1]), N(op[2]))
         if k == 'status':
@@ -377,6 +415,8 @@ class P(core.Prop):
             return 'EConnecting'
         if k == 'sent':
             return C('ESent', N(e[1]), B(e[2].encode()))
+        if k == 'attach':
+            return C('EAttach', N(e[1]))
         if k == 'progress':
             return C('EProgress', N(e[1]))
         if k == 'raised':
@@ -387,7 +427,7 @@ class P(core.Prop):
 
     def to_coq(self, case, obs):
         return Rec(k_cfg=Rec(c_timeout=Bool(case['timeout']), c_userdir=Bool(case['user_dir']),
-                             c_killerr=Bool(case['kill_on_stderr'])),
+                             c_killerr=Bool(case['kill_on_stderr']), c_attach=N(int(case.get('attach', 0)))),
                    k_ops=L(self._op(o) for o in case['ops']),
                    k_obs=L(L(self._ev(e) for e in ch) for ch in obs['chunks']))
 
@@ -401,8 +441,10 @@ class P(core.Prop):
         return 'pending'
 
     def kind(self, case, obs):
-        return '%s/%s%s' % (self._outcome(obs), 'userdir' if case['user_dir'] else 'tmpdir',
-                            '' if case['timeout'] else '/no-timeout')
+        held = any(o[0] == 'attach' and any(e[0] == 'fired' and e[1] == 0 for e in ch)
+                   for o, ch in zip(case['ops'], obs['chunks'][1:]))
+        return '%s/%s%s%s' % (self._outcome(obs), 'userdir' if case['user_dir'] else 'tmpdir',
+                              '' if case['timeout'] else '/no-timeout', '/result-after-attach' if held else '')
 
     def nontrivial(self, case, obs):
         ops = case['ops']
@@ -411,10 +453,11 @@ class P(core.Prop):
         n += any(o[0] == 'exit' for o in ops)
         n += any(o[0] == 'timeout' for o in ops) and case['timeout']
         n += any(['progress', 100] in ch for ch in obs['chunks'])
+        n += any(e[0] == 'attach' for ch in obs['chunks'] for e in ch) and any(o[0] == 'attach' for o in ops)
         return LISTENER_LINE in out and n >= 2
 
     # ------------------------------------------------------------------ generation
-    def _story(self, rng):
+    def _story(self, rng, n_attach=0):
         """stimuli in causal order"""
         ops = []
         stream = [STDOUT_HEAD, STDOUT_LINE, STDOUT_TAIL]
@@ -451,6 +494,14 @@ class P(core.Prop):
                 ops.append(['progress', 0, rng.choice([5, 10, 50, 90, 99])])
             if i == 1 and rng.random() < 0.3:
                 ops.append(['status', 0])
+        # the round trips of the config attach (one more than needed in some); 100% may come in between
+        n_ans = n_attach + (1 if rng.random() < 0.2 else 0)
+        early100 = rng.random() < 0.5 and n_ans > 0
+        at = rng.randrange(0, n_ans) if early100 else -1
+        for i in range(n_ans):
+            if i == at:
+                ops.append(['progress', 0, 100])
+            ops.append(['attach', rng.random() < 0.85])
         if second and ops.count(['connok']) == 1:
             ops.append(['out', STDOUT_LINE.hex()])
             ops.append(['connok'])
@@ -469,12 +520,13 @@ class P(core.Prop):
         return ops
 
     def _case(self, rng):
-        ops = self._story(rng)
+        n_attach = rng.choice([0, 1, 1, 2, 2, 3])
+        ops = self._story(rng, n_attach)
         r = rng.random()
         if r < 0.45:
             # move a few stimuli somewhere else
             for _ in range(rng.choice([1, 1, 2, 3])):
-                movable = [i for i, o in enumerate(ops) if o[0] in ('timeout', 'exit', 'progress', 'connok', 'ack', 'boot', 'err')]
+                movable = [i for i, o in enumerate(ops) if o[0] in ('timeout', 'exit', 'progress', 'connok', 'ack', 'boot', 'err', 'attach')]
                 if not movable:
                     break
                 i = rng.choice(movable)
@@ -488,7 +540,7 @@ class P(core.Prop):
             ops.insert(rng.randrange(max(0, len(ops) - 2), len(ops) + 1), ['shutdown'])
         ops = make_wf(ops)
         return {'timeout': rng.random() < 0.8, 'user_dir': rng.random() < 0.4,
-                'kill_on_stderr': rng.random() < 0.8, 'ops': ops}
+                'kill_on_stderr': rng.random() < 0.8, 'attach': n_attach, 'ops': ops}
 
     def generate(self, rng, tier, n):
         return [self._case(rng) for _ in range(n)]
@@ -539,11 +591,40 @@ class P(core.Prop):
                 for _ in range(2):
                     i = rng.randrange(i + 1, len(ops) + 1)
                     ops.insert(i, ['ack', 0, True])
+            # the config attach: immediate / 1 / 2 round trips, answered at some points after the first ack
+            n_attach = (n // 2) % 3
+            i = next(k for k, o in enumerate(ops) if o[0] == 'ack')
+            for _ in range(n_attach):
+                i = rng.randrange(i + 1, len(ops) + 1)
+                ops.insert(i, ['attach', True])
             ops = make_wf(ops + [['when', 1]])
             t, u = settings[n % len(settings)]
-            out.append({'timeout': t, 'user_dir': u, 'kill_on_stderr': True, 'ops': ops})
+            out.append({'timeout': t, 'user_dir': u, 'kill_on_stderr': True, 'attach': n_attach, 'ops': ops})
         desc = 'every order of {stdout%s, connect, auth, ack, 100%%, timeout, exit}: %d histories' % (
             ' (line cut in two)' if tier == 'quick' else ' in 2 pieces', len(out))
+        # the attach stage: connection up to RESETCONF sent, then every order of the last ack, the attach
+        # answers, 100% and the end (quick: exit or timeout; thorough: both)
+        pre = [['out', a.hex()], ['connok'], ['boot', 0, True], ['ack', 0, True], ['ack', 0, True]]
+        m = 0
+        for n_attach in (1, 2):
+            for oks in itertools.product((True, False), repeat=2):
+                ends = [['exit'], ['timeout']] if tier == 'quick' else [['exit', 'timeout']]
+                for end in ends:
+                    items = ['ack3', 'att0', 'att1', 'p100'] + end
+                    for perm in itertools.permutations(items):
+                        if perm.index('att0') > perm.index('att1'):
+                            continue
+                        m += 1
+                        ops = list(pre)
+                        for it in perm:
+                            ops.append({'ack3': ['ack', 0, True], 'att0': ['attach', oks[0]], 'att1': ['attach', oks[1]],
+                                        'p100': ['progress', 0, 100], 'timeout': ['timeout'],
+                                        'exit': ['exit', 'code', 0] if m % 2 else ['exit', 'signal', 15]}[it])
+                        ops.insert(rng.randrange(len(pre), len(ops) + 1), ['when', 1])
+                        out.append({'timeout': True, 'user_dir': bool(m % 2), 'kill_on_stderr': True,
+                                    'attach': n_attach, 'ops': ops})
+        desc += ' + every order of {RESETCONF ack, 2 attach answers ok/rejected, 100%%, %s} for 1 and 2 round trips: %d' % (
+            'exit | timeout' if tier == 'quick' else 'exit, timeout', m)
         if tier != 'quick':
             # every cut of the stream inside the listener line, causal order
             for cutp in range(k0, k0 + len(LISTENER_LINE) + 1):
@@ -574,6 +655,8 @@ class P(core.Prop):
         for key in ('user_dir', 'kill_on_stderr'):
             if case[key]:
                 yield dict(case, **{key: False})
+        if case.get('attach', 0) > 0:
+            yield dict(case, attach=case['attach'] - 1)
 
     finding_preds = {}
 
